@@ -1,0 +1,106 @@
+//go:build verif
+
+package elastic
+
+// Contracts for elastic_ring_buffer.go, read by the rcvc verifier in /verif (comment-only; adds no code).
+// A RingBuffer is a lazily allocated ring.Buffer: its byte sequence is empty while rb == nil and is the ring's
+// sequence otherwise; a ring that becomes empty after a read goes back to the pool.
+
+//@ use ring
+
+//@ define ewf(b) = b.rb == nil || ring.wf(b.rb)
+//@ define elen(b) = ite(b.rb == nil, 0, ring.blen(b.rb))
+//@ define eat(b, k) = ring.at(b.rb, k)
+
+//@ func RingBuffer.instance
+//@   props C19
+//@   modifies b.rb
+//@   requires ewf(b)
+//@   ensures result == b.rb && result != nil && ring.wf(result) && ring.blen(result) == old(elen(b))
+//@   ensures old(b.rb) != nil ==> b.rb == old(b.rb)
+//@   ensures old(b.rb) == nil ==> fresh(b.rb) && fresh(b.rb.buf)
+
+//@ func RingBuffer.done
+//@   props C19
+//@   modifies b.rb
+//@   requires ewf(b)
+//@   ensures ewf(b) && elen(b) == old(elen(b)) && (b.rb == old(b.rb) || (b.rb == nil && old(elen(b)) == 0))
+
+//@ func RingBuffer.Buffered
+//@   props C19
+//@   flags pure
+//@   requires ewf(b)
+//@   ensures result == elen(b)
+
+//@ func RingBuffer.IsEmpty
+//@   props C19
+//@   flags pure
+//@   requires ewf(b)
+//@   ensures result == (elen(b) == 0)
+
+//@ func RingBuffer.Peek
+//@   props C19
+//@   flags pure
+//@   requires ewf(b)
+//@   ensures[len] len(head) + len(tail) == ite(n <= 0, elen(b), imin(n, elen(b)))
+//@   ensures[head] forall k int :: 0 <= k && k < len(head) ==> head[k] == eat(b, k)
+//@   ensures[tail] forall k int :: 0 <= k && k < len(tail) ==> tail[k] == eat(b, len(head) + k)
+
+//@ func RingBuffer.Discard
+//@   props C19
+//@   modifies b.rb, ring.Buffer.r, ring.Buffer.w, ring.Buffer.isEmpty
+//@   requires ewf(b)
+//@   ensures[wf] ewf(b)
+//@   ensures[count] old(b.rb) != nil ==> result0 == imin(imax(n, 0), old(elen(b))) && result1 == nil
+//@   ensures[none] old(b.rb) == nil ==> result0 == 0 && result1 == ring.ErrIsEmpty
+//@   ensures[len] elen(b) == old(elen(b)) - result0
+//@   ensures[view] forall k int :: 0 <= k && k < elen(b) ==> eat(b, k) == old(eat(b, k + imin(imax(n, 0), elen(b))))
+
+//@ func RingBuffer.Write
+//@   props C19
+//@   modifies b.rb, ring.Buffer.buf, ring.Buffer.size, ring.Buffer.r, ring.Buffer.w, ring.Buffer.isEmpty, allmem(byte)
+//@   requires ewf(b) && (b.rb == nil || p.base != b.rb.buf.base)
+//@   ensures[wf] ewf(b)
+//@   ensures[count] result0 == len(p) && result1 == nil
+//@   ensures[len] elen(b) == old(elen(b)) + len(p)
+//@   ensures[keep] forall k int :: 0 <= k && k < old(elen(b)) ==> eat(b, k) == old(eat(b, k))
+//@   ensures[data] forall k int :: 0 <= k && k < len(p) ==> eat(b, old(elen(b)) + k) == old(p[k])
+
+//@ func RingBuffer.Done
+//@   props C19
+//@   modifies b.rb
+//@   ensures b.rb == nil
+
+//@ func RingBuffer.Read
+//@   props C19
+//@   modifies b.rb, ring.Buffer.r, ring.Buffer.w, ring.Buffer.isEmpty, elems(p)
+//@   requires ewf(b) && (b.rb == nil || p.base != b.rb.buf.base)
+//@   ensures[wf] ewf(b)
+//@   ensures[count] result0 == imin(len(p), old(elen(b)))
+//@   ensures[len] elen(b) == old(elen(b)) - result0
+//@   ensures[data] forall k int :: 0 <= k && k < result0 ==> p[k] == old(eat(b, k))
+//@   ensures[view] b.rb != nil ==> (b.rb == old(b.rb) && (forall k int :: 0 <= k && k < ring.blen(b.rb) ==> ring.at(b.rb, k) == old(ring.at(b.rb, k + imin(len(p), ring.blen(b.rb))))))
+
+//@ func RingBuffer.ReadByte
+//@   props C19
+//@   modifies b.rb, ring.Buffer.r, ring.Buffer.w, ring.Buffer.isEmpty
+//@   requires ewf(b)
+//@   ensures[wf] ewf(b)
+//@   ensures[empty] old(elen(b)) == 0 ==> result1 == ring.ErrIsEmpty && elen(b) == 0
+//@   ensures[data] old(elen(b)) > 0 ==> result1 == nil && result0 == old(eat(b, 0)) && elen(b) == old(elen(b)) - 1
+//@   ensures[view] forall k int :: 0 <= k && k < elen(b) ==> eat(b, k) == old(eat(b, k + 1))
+
+//@ func RingBuffer.WriteByte
+//@   props C19
+//@   modifies b.rb, ring.Buffer.buf, ring.Buffer.size, ring.Buffer.r, ring.Buffer.w, ring.Buffer.isEmpty, allmem(byte)
+//@   requires ewf(b)
+//@   ensures[wf] ewf(b)
+//@   ensures[len] elen(b) == old(elen(b)) + 1
+//@   ensures[keep] forall k int :: 0 <= k && k < old(elen(b)) ==> eat(b, k) == old(eat(b, k))
+//@   ensures[data] eat(b, old(elen(b))) == c
+
+//@ func RingBuffer.Reset
+//@   props C19
+//@   modifies ring.Buffer.r, ring.Buffer.w, ring.Buffer.isEmpty
+//@   requires ewf(b)
+//@   ensures ewf(b) && elen(b) == 0
